@@ -225,7 +225,7 @@ class E2E:
     configuration with an upload section: everything `vsb upload` needs, offline."""
     CLOUD_ROOT = '/Backups'
 
-    def __init__(self, ctx, hid, provider, passphrase, nbackups=2, file_sizes=(10, 5000, 70000), rng=None):
+    def __init__(self, ctx, hid, provider, passphrase, nbackups=2, file_sizes=(10, 5000, 70000), rng=None, stage_options=()):
         import random
         from vlib import hist, store
         self.ctx, self.provider, self.passphrase = ctx, provider, passphrase
@@ -241,7 +241,7 @@ class E2E:
             assert r.rc == 0, r.errors()
             self.backups.append((store.group_name(w.now), store.backup_name(w.now)))
         self.home = make_gnupghome(w.base)
-        self.stage = Stage(ctx, 'e2e-%d' % hid)
+        self.stage = Stage(ctx, 'e2e-%d' % hid, stage_options)
         ns = emu.pe.load_namespace(self.stage.dir, provider)
         ns.mkdir(self.CLOUD_ROOT)
         emu.pe.save_namespace(self.stage.dir, ns)
